@@ -89,11 +89,17 @@ struct Case {
     int mainDepth = 0;
     bool revalidateDates = false, reorderFirst = false;
     int64_t now = NOW;          // virtual wall clock of this case (c03_dates moves it to calendar boundaries)
+    // trust store loaded the way matrixSslLoadKeys does it (matrixsslKeys.c matrixSslAddTrustAnchors): ONE psX509ParseCert call over the
+    // concatenated CA file with CERT_STORE_DN_BUFFER | CERT_ALLOW_BUNDLE_PARTIAL_PARSE; entries that fail to parse stay in the list
+    bool anchorBundle = false;
     // ---- history mode (c03_crl_history): several validations against one trust store and one CRL cache
     bool history = false;
     bool appTriesPathCAs = false;        // when loading a CRL the application also tries the genuine CA certificates it knows
     std::vector<Crl> altCrls;            // CRLs the application may load later (replace the same-issuer CRL in the cache)
-    struct Step { std::vector<int> chain; std::string what; int crlAction = 0; int altIdx = 0; bool revalidateDates = false, reorderFirst = false; };
+    std::vector<Crl> otherCrls;          // CRLs of OTHER issuers (root, foreign CA, unrelated root): loading one never changes what is known about
+                                         // the leaf's issuer (the reference is per issuer name; apps/ssl/client.c loads one CRL per chain level)
+    struct Step { std::vector<int> chain; std::string what; int crlAction = 0; int altIdx = 0; bool revalidateDates = false, reorderFirst = false;
+                  int otherLoad = 0; };    // otherLoad: 0 none, else load otherCrls[otherLoad - 1] (psCRL_Update) before the step
     std::vector<Step> steps;             // crlAction before the step: 0 none, 1 re-load the current CRL, 2 load altCrls[altIdx]
 };
 
@@ -217,6 +223,9 @@ static inline bool revoked_strict(const Case &cs, const Node &c)
 static inline bool issuer_ok_lax(const Case &cs, const Node &iss, int below)
 {
     bool isAnchor = in_list(cs.anchors, iss.id);
+    // "no unrecognised critical extension occurs" is not limited to the certificates below the anchor (the date rule is): a CA certificate
+    // that MatrixSSL itself cannot parse for that reason is not a usable trust anchor (it is only reachable through a partial bundle load)
+    if (isAnchor && iss.unk == 2) return false;
     if (iss.version == 3)
     {
         if (iss.bc != mint::BC_TRUE) return false;
@@ -288,7 +297,9 @@ static inline bool link_strict(const Case &cs, const Node &c, const Node &iss, i
     if (iss.pathLen >= 0 && iss.pathLen < below) return false;
     if (&c != &iss)
     {
-        if (!((c.aki == AKI_MATCH && iss.ski) || (c.aki == AKI_ABSENT && !iss.ski))) return false;
+        // an authorityKeyIdentifier, when present, must name the issuer's subjectKeyIdentifier (documented); a certificate WITHOUT the
+        // extension states nothing about the issuer key and meets every rule of the property whether or not the issuer carries an SKI
+        if (!((c.aki == AKI_MATCH && iss.ski) || c.aki == AKI_ABSENT)) return false;
     }
     else if (!(c.aki == AKI_ABSENT || (c.aki == AKI_MATCH && c.ski)))
     {
@@ -372,6 +383,7 @@ static inline std::string first_violation(const Case &cs, int foundAnchor)
             if (!key_enabled(iss.key)) return "accepts-weak-issuer-key";
             return "accepts-disabled-hash";
         }
+        if (last && iss.unk == 2) return "accepts-unparsed-trust-anchor";
         if (iss.version == 3 && iss.bc != mint::BC_TRUE) return "accepts-non-ca-issuer";
         if (iss.version != 3 && !last) return "accepts-non-ca-issuer";
         if (iss.version == 3 && iss.pathLen >= 0 && iss.pathLen < below) return "accepts-pathlen-violation";
@@ -933,6 +945,75 @@ struct Gen {
             cs.steps.push_back(st);
         }
         cs.chain = cs.steps[0].chain;
+        // CRLs of OTHER issuers, loaded through psCRL_Update after the leaf issuer's CRL (so that one is the FIRST cache entry) and/or
+        // between validations.  Drawn last: tapes recorded before this dimension existed decode to the same case (exhausted tape = none).
+        {
+            auto other = [&](int ca, int lists) {
+                const Node &x = cs.n[(size_t) ca];
+                Crl r; r.issuer = x.subj; r.signKey = x.key; r.hash = good_hash(); r.extraSerials = 1 + (int) t.below(2); r.aki = t.coin();
+                if (lists >= 0) r.revokedNodes.push_back(lists);
+                for (auto &o : cs.otherCrls) if (name_eq(o.issuer, r.issuer)) return;
+                if (name_eq(r.issuer, cs.crls[0].issuer)) return;
+                cs.otherCrls.push_back(r);
+            };
+            unsigned pre = (unsigned) t.below(4);                    // 0: none, 1/3: one, 2: two other-issuer CRLs in the initial load
+            other(wrongCa, -1);
+            if (last >= 2) other(r0, (cs.n[(size_t) wrongCa].parent == r0 && t.coin()) ? wrongCa : -1);
+            if (!extraRoots.empty()) other(extraRoots[0], -1);
+            size_t npre = pre == 0 ? 0 : pre == 2 ? 2 : 1;
+            size_t first = (size_t) t.below(cs.otherCrls.size());
+            for (size_t k = 0; k < npre && k < cs.otherCrls.size(); k++) cs.crls.push_back(cs.otherCrls[(first + k) % cs.otherCrls.size()]);
+            if (npre) note("other-issuer-crl-loaded-after", 0);
+            for (size_t k = 1; k < cs.steps.size(); k++)
+                if (t.below(5) == 1) cs.steps[k].otherLoad = 1 + (int) t.below(cs.otherCrls.size());
+        }
+    }
+
+    // ---- trust store loading: one entry of the CA file is defective (usually: cannot be parsed), loaded as a bundle -----------------
+    // The defective entry is the path's own root (then no valid path exists through it if the defect is one the property names) or an
+    // unrelated entry before/after the good root (then the good path must still be accepted).
+    void gen_anchor()
+    {
+        cs.kind = "anchor-load";
+        unsigned dr = (unsigned) t.below(100);
+        build_universe(dr < 45 ? 0 : dr < 85 ? 1 : 2);
+        int last = mpLen() - 1;
+        int r0 = mainPath[(size_t) last];
+        if (extraRoots.empty() && t.coin()) extraRoots.push_back(add("OtherRoot", -1, true));
+        bool onPath = extraRoots.empty() || t.below(100) < 62;
+        int target = onPath ? r0 : extraRoots[(size_t) t.below(extraRoots.size())];
+        {
+            Node &x = cs.n[(size_t) target];
+            bool ed = kkind(x.signKey) == mint::K_ED25519, rsa = mint::kind_is_rsa(kkind(x.signKey));
+            unsigned v = (unsigned) t.below(100);
+            const char *cls;
+            if (v < 40) { x.unk = 2; cls = "anchor-unknown-critical-ext"; }
+            else if (v < 50) { x.version = 1; cls = "anchor-v1"; }
+            else if (v < 58)
+            {
+                int k = key_of_kind(mint::K_RSA768);
+                if (k >= 0) { x.key = k; resign_children_of(x.id); cls = "anchor-weak-rsa-key"; } else { x.unk = 2; cls = "anchor-unknown-critical-ext"; }
+            }
+            else if (v < 66 && !ed) { x.hash = rsa && t.coin() ? mint::H_MD5 : mint::H_SHA1; cls = "anchor-selfsig-weak-hash"; }
+            else if (v < 73) { x.sig = SIG_BITFLIP; x.sigBit = (unsigned) t.u16(); cls = "anchor-selfsig-corrupt"; }
+            else if (v < 79) { x.sig = SIG_ALGMISMATCH; cls = "anchor-sigalg-mismatch"; }
+            else if (v < 86) { x.na = -(int64_t) (2 + t.below(300)) * DAY; cls = "anchor-expired"; }
+            else cls = "anchor-clean";
+            note((std::string(cls) + (onPath ? ":path-root" : ":other-entry")).c_str(), onPath ? last : -1);
+        }
+        // a child without authorityKeyIdentifier under an issuer that carries a subjectKeyIdentifier (and nothing else unusual)
+        if (t.below(6) == 0)
+        {
+            int pos = (int) t.below((uint64_t) last);
+            mp(pos).aki = AKI_ABSENT; mp(pos + 1).ski = true;
+            if (mp(pos + 1).selfIssued && mp(pos + 1).aki == AKI_MATCH) { /* self AKI stays consistent with its own SKI */ }
+            note("aki-absent-under-ski", pos);
+        }
+        cs.chain.assign(mainPath.begin(), mainPath.begin() + last);
+        if (t.chance(1, 5)) { cs.chain.push_back(r0); cs.shape = "root-appended"; }
+        cs.anchors = extraRoots;
+        cs.anchors.insert(cs.anchors.begin() + (long) t.below(cs.anchors.size() + 1), r0);
+        cs.anchorKind = cs.anchors.size() > 1 ? "root-among-others" : "root";
     }
 
     // ---- validity-date dimension: encodings x boundary years x position relative to "now" ------------------------------
@@ -1111,6 +1192,7 @@ struct Gen {
         if (forcedKind == 4) { gen_history(); return cs; }
         if (forcedKind == 6) { gen_samename(); finish_opts(); return cs; }
         if (forcedKind == 5) { gen_dates(); finish_opts(); return cs; }
+        if (forcedKind == 7) { gen_anchor(); finish_opts(); cs.anchorBundle = !t.chance(1, 8); return cs; }
         unsigned k = (unsigned) t.below(100);
         int kind = forcedKind >= 0 ? forcedKind : (k < 70 ? 0 : k < 80 ? 1 : k < 92 ? 2 : k < 96 ? 3 : k < 98 ? 5 : 6);
         switch (kind)
@@ -1130,6 +1212,7 @@ struct Gen {
         unsigned o = (unsigned) t.u8();
         cs.revalidateDates = (o & 3) == 3;
         cs.reorderFirst = (o & 0x1c) == 0x1c;
+        cs.anchorBundle = (o & 0x60) == 0x60;       // same option byte: tapes recorded earlier keep decoding to the same universe
     }
 };
 
@@ -1183,6 +1266,7 @@ static inline std::string describe(const Case &cs)
     s += "]";
     if (cs.revalidateDates) s += " +revalidate-dates";
     if (cs.reorderFirst) s += " +reorder";
+    if (cs.anchorBundle) s += " +ca-bundle-load";
     return s;
 }
 
